@@ -14,6 +14,7 @@ def check(A):
         S.writer_rules(A, fl, 'C03')
         S.send_rules(A, fl, 'C03')
         S.direct_websocket(A, fl, 'C03')
+        S.who_may_rules(A, fl, 'C03', parts=('flags',))
         S.upgrade_exit_state(A, fl, 'C03')
         R.api_rules(A, fl, 'C03')
     R.isolation_rules(A, 'C03')
